@@ -1,7 +1,8 @@
 (* Props_C07.v — the property theorems for C07 and nothing else.
    C07: "A scan cursor is a stable, memory-safe snapshot while the store moves under it". *)
 From Coq Require Import NArith ZArith List Bool.
-From Blue Require Import Cursor.Iface Cursor.Ref Cursor.Bounds Cursor.Spec Snap.Model Snap.ProofsSafe.
+From Blue Require Import Cursor.Iface Cursor.Ref Cursor.Bounds Cursor.Pruning Cursor.Spec Cursor.Proofs_Ref
+  Snap.Model Snap.ProofsSafe Snap.ProofsLeaf Snap.ProofsGrow Snap.ProofsScan Snap.ProofsStable.
 Import ListNotations.
 Local Open Scope N_scope.
 
@@ -24,6 +25,80 @@ Proof. intros c seq es H1 H2. exact (proj1 (run_safe c H1 H2 es (minit seq) (ini
 Theorem C07_lifetime_invariant_reachable : forall c seq es,
   cf_iter_owns c = true -> cf_holds_ver c = true -> Inv (fst (mrun c (minit seq) es)).
 Proof. intros c seq es H1 H2. exact (proj2 (run_safe c H1 H2 es (minit seq) (init_inv seq))). Qed.
+
+(* ---- stability of what the cursor shows.
+   `scan_list lo hi t ls v` (ProofsScan) is the composed specification of the nesting that
+   KeyValueStore::range_scan builds: bounds_spec lo hi (prune_spec t (sorted union of the
+   memtables' entries within the bounds and of the version's files)) - per key the newest version
+   not newer than t unless it is a tombstone, within the bounds: the contents at scan-open time.
+   `scan_wf` asks what the combinators need (sorted memtables and files, levels sorted end to end,
+   no (key, timestamp) twice); the check evaluates it on every scan it opens on the real store. *)
+
+(* a freshly built scan cursor over lists that do not change IS the reference cursor over the
+   contents: every program of seek_to_first / seek_to_last / seek / prev / next, no failure, no
+   loop out of fuel *)
+Theorem C07_fresh_scan_is_reference_cursor : forall fuel lo hi t (mems : list (N * list entry)) v,
+  scan_wf lo hi (map snd mems) v -> (total_size (map snd mems) v + 2 <= fuel)%nat ->
+  refines (xcur fuel scan_depth) (scan_new fuel lo hi t mems v) (scan_list lo hi t (map snd mems) v) (-1).
+Proof. exact scan_new_refines. Qed.
+
+(* In the machine: a cursor opened after ANY history es1 and then held across ANY further events
+   es2 - rollovers, flush completions (dropping the memtable it iterates), installs of arbitrary
+   new versions (retiring the ssts it reads), removals from trash/, cache evictions, other cursors
+   opened, used and dropped, its own calls in any order and direction, and writes once a rollover
+   has swapped out the memtable it was opened on - returns, call by call, exactly what the
+   reference cursor over the contents at scan-open time returns.  (`quietb` excludes only writes
+   into the memtable the cursor was opened on while it is still the active one: see
+   C07_pruning_screens_late_writes and the note on what is missing for that case.)
+   The hypotheses `no_err` exclude ill-formed schedules (BadEvent); UAF / ENOENT cannot occur by
+   C07_no_freed_memory_no_missing_file. *)
+Theorem C07_cursor_keeps_scan_open_contents : forall c seq es1 cid lo hi es2,
+  cf_iter_owns c = true -> cf_holds_ver c = true ->
+  let s1 := fst (mrun c (minit seq) es1) in
+  find_scan s1 cid = None ->
+  scan_wf lo hi (map (look_of s1) (open_mems s1)) (cur_levels s1) ->
+  (total_size (map (look_of s1) (open_mems s1)) (cur_levels s1) + 2 <= cf_fuel c)%nat ->
+  quietb cid true es2 = true ->
+  Forall no_err (snd (mrun c s1 (EOpen cid lo hi :: es2))) ->
+  cursor_trace cid (EOpen cid lo hi :: es2) (snd (mrun c s1 (EOpen cid lo hi :: es2))) =
+  ref_trace (scan_list lo hi (ms_vis s1) (map (look_of s1) (open_mems s1)) (cur_levels s1)) (-1) cid es2.
+Proof.
+  intros c seq es1 cid lo hi es2 Hio Hhv s1 Hfs Hwf Hfu Hq Hne.
+  assert (Inv s1) as HI by (exact (proj2 (run_safe c Hio Hhv es1 (minit seq) (init_inv seq)))).
+  cbn [mrun] in *. destruct (mstep c s1 (EOpen cid lo hi)) as [s' o] eqn:E.
+  assert (no_err o) as Ho.
+  { destruct o as [|ob|er]; [exact I|exact I|]. cbn [snd] in Hne. inversion Hne; subst. assumption. }
+  pose proof (open_CI c cid lo hi s1 Hio Hhv HI Hfs) as HC. rewrite E in HC. cbn [fst snd] in HC. specialize (HC Ho Hwf Hfu).
+  destruct o as [|ob|er]; [| |destruct Ho].
+  - destruct (mrun c s' es2) as [s'' os] eqn:Er. cbn [snd cursor_trace app] in *. inversion Hne; subst.
+    pose proof (held_run c Hio Hhv cid _ es2 s' true (-1) HC Hq) as H. rewrite Er in H. cbn [snd] in H. exact (H H2).
+  - destruct (mrun c s' es2) as [s'' os] eqn:Er. cbn [snd cursor_trace app] in *. inversion Hne; subst.
+    pose proof (held_run c Hio Hhv cid _ es2 s' true (-1) HC Hq) as H. rewrite Er in H. cbn [snd] in H. exact (H H2).
+Qed.
+
+(* The key lemma for writes that land in the skiplist under the cursor: a PruningCursor at t over
+   the skiplist iterator of a list l0 keeps behaving as the reference cursor over prune_spec t l0
+   while, between its calls, the list is replaced any number of times by longer sorted lists that
+   differ from l0 only in entries NEWER than t - the writes that completed after the scan was
+   opened.  (gfix = the iterator with seek_to_first positioned before the first node, which is how
+   the BoundsCursor above it leaves it.)  Every observation equal, no failure, fuel never exhausted. *)
+Theorem C07_pruning_screens_late_writes : forall fuel t l0 evs,
+  good_list fuel t l0 l0 -> good_evs fuel t l0 l0 evs ->
+  grun fuel t (p_new gfix (g_new l0)) evs = gref (prune_spec t l0) (-1) evs.
+Proof. exact pruning_screens_late_writes. Qed.
+
+(* C07_cursor_snapshot_stable_partial.  The full statement
+     forall es2 (with writes into the cursor's own active memtable allowed as well),
+       cursor_trace cid .. = ref_trace (scan_list .. at scan-open) ..
+   is proved above for every event except a write into the memtable the cursor was opened on while
+   that memtable is still active.  What is missing for that case: since db4381b (F1) the single
+   PruningCursor sits ABOVE the MergingCursor, so late entries reach the merge; a MergingCursor over
+   a child whose list grows is not an exact refinement of any list (an entry inserted between the
+   merged position and that child's own position is skipped forward and met backward), so the proof
+   needs "late-tolerant" versions of the merging and pruning simulations (positions counted over
+   the entries not newer than t only).  C07_pruning_screens_late_writes is that argument for the
+   pruning cursor directly over the growing list; the lock-step runs exercise the full case
+   (cursor steps held across writes). *)
 
 (* ---- the two repairs are necessary: each pre-repair rule is refuted by a concrete schedule *)
 Definition ex_uaf : list event :=
